@@ -174,11 +174,30 @@ func main() {
 	}
 	var failed []*Obligation
 	var knownHit []string
+	var unreachable []string
+	// exit canaries: an exit may be legitimately unreachable (dead branch); a function is vacuous only if
+	// none of its exits is reachable. cover.* checks (precondition, loop invariant) must always pass.
+	exitOK := map[string]bool{}
+	exitAny := map[string]bool{}
+	for _, o := range all {
+		if o.Vacuity && strings.HasPrefix(o.Name, "canary.") {
+			exitAny[o.Fn] = true
+			if o.Result == "proved" {
+				exitOK[o.Fn] = true
+			}
+		}
+	}
 	for _, o := range all {
 		if o.Vacuity {
 			nVac++
 			if o.Result == "proved" {
 				nVacOK++
+			} else if strings.HasPrefix(o.Name, "canary.") {
+				if !exitOK[o.Fn] {
+					failed = append(failed, o)
+				} else {
+					unreachable = append(unreachable, o.Fn+"/"+o.Name)
+				}
 			} else {
 				failed = append(failed, o)
 			}
@@ -210,7 +229,10 @@ func main() {
 		}
 	}
 	seenKF := map[string]bool{}
+	seenViol := map[string]bool{}
 	replayDir := filepath.Join(*verif, "replays", *prop)
+	var harnessInput interface{}
+	harnessTried := false
 	for _, o := range failed {
 		if kf := openFinding(o); kf != nil {
 			if !seenKF[kf.Obligation] {
@@ -220,9 +242,13 @@ func main() {
 			}
 			continue
 		}
+		if seenViol[normObl(o.Fn, o.Name)] {
+			continue // the same clause failing on another path: reported once
+		}
+		seenViol[normObl(o.Fn, o.Name)] = true
 		violations++
 		_ = os.MkdirAll(replayDir, 0755)
-		path := filepath.Join(replayDir, mangle(o.Fn+"."+o.Name)+".json")
+		path := filepath.Join(replayDir, mangle(normObl(o.Fn, o.Name))+".json")
 		rep := map[string]interface{}{
 			"property":      *prop,
 			"obligation":    o.Fn + "/" + o.Name,
@@ -238,8 +264,12 @@ func main() {
 			"failing_input": nil,
 		}
 		suffix := " no-failing-input-found"
-		if input := concretise(*verif, *repo, *prop, o, seed); input != nil {
-			rep["failing_input"] = input
+		if !harnessTried && os.Getenv("GOVC_NO_CONCRETISE") == "" {
+			harnessTried = true
+			harnessInput = concretise(*verif, *repo, *prop, o, seed)
+		}
+		if harnessInput != nil {
+			rep["failing_input"] = harnessInput
 			suffix = ""
 		}
 		data, _ := json.MarshalIndent(rep, "", " ")
@@ -299,6 +329,7 @@ func main() {
 			"generate_s":               round3(genS),
 			"vacuity":                  map[string]int{"checks": nVac, "passed": nVacOK},
 			"ungenerated":              ungenerated,
+			"unreachable_exits":        unreachable,
 			"known_findings_hit":       knownHit,
 			"integers":                 "Go integers are SMT Int with explicit wrap-around (mod 2^w) in int mode, 64-bit bit-vectors in bv mode; nothing is treated as mathematical",
 		}
@@ -400,9 +431,8 @@ func assumptionsFor(prop string, trusted []string) []string {
 
 // concretise tries to turn a failed obligation into a failing input on the real code (property-specific harness).
 func concretise(verif, repo, prop string, o *Obligation, seed int) interface{} {
-	h := filepath.Join(verif, "replay", prop, "concretise.sh")
-	if _, err := os.Stat(h); err != nil {
+	if _, err := os.Stat(filepath.Join(verif, "replay", prop, "harness_test.go")); err != nil {
 		return nil
 	}
-	return runConcretiser(h, repo, prop, o, seed)
+	return runConcretiser(filepath.Join(verif, "replay", "run.sh"), repo, prop, o, seed)
 }
